@@ -255,4 +255,22 @@ Max2(a, b) == IF a > b THEN a ELSE b
 SliceBounds(ls, rs, out) == Len(out) >= Max2(Len(ls), Len(rs)) /\ Len(out) <= Len(ls) + Len(rs)
 \* merging a tree with itself adds nothing as long as no two of its siblings are equal to each other
 SelfMergeAddsNothing(F, t, res) == ~HasEqSiblings(F, t) => NodeCount(res) = NodeCount(t)
+
+\* ---------------------------------------------------------------- Filter (filter.go), beyond the listed properties
+\* Filter(root, fn) is a fresh tree: a node the function drops disappears with its subtree, a node it keeps is copied and its
+\* children are filtered in turn.  The stock functions: WhitelistTagFilter / BlacklistTagFilter (tags), OfficialTagFilter (tags
+\* that do not start with an underscore), RemoveEmptyDeathTagFilter (a DEAT that had no children in the input).
+Unofficial == {"_X", "_UID", "_NEW", "_MARK", "_HOLDER"}
+Keeps(f, n) == CASE f.k = "white" -> n.t \in {f.tags[i] : i \in 1..Len(f.tags)}
+                 [] f.k = "black" -> n.t \notin {f.tags[i] : i \in 1..Len(f.tags)}
+                 [] f.k = "official" -> n.t \notin Unofficial
+                 [] f.k = "emptydeath" -> ~(n.t = "DEAT" /\ n.kids = <<>>)
+                 [] OTHER -> TRUE
+RECURSIVE FilterKids(_, _, _, _)
+FilterKids(f, kids, k, acc) ==
+  IF k > Len(kids) THEN acc
+  ELSE IF ~Keeps(f, kids[k]) THEN FilterKids(f, kids, k + 1, acc)
+  ELSE FilterKids(f, kids, k + 1, Append(acc, [kids[k] EXCEPT !.kids = FilterKids(f, kids[k].kids, 1, <<>>)]))
+\* <<>> when the root itself is dropped, else <<the filtered tree>>
+FilterM(f, n) == FilterKids(f, <<n>>, 1, <<>>)
 =============================================================================
